@@ -46,6 +46,13 @@ def step (t : Tree) (ws : List String) : Tree × String :=
       let cmps' := insertCmps t.dups e t.root 0
       (t', s!"st={if st == .success then "SUCCESS" else "EXISTS"} it={id} size={t'.size}" ++ wb t' cmps')
     | none => (t, "bad-op")
+  | ["insfail", k] =>
+    match k.toInt? with
+    | some e =>
+      match t.insertMayFail e false with
+      | (t', some (_, id)) => (t', s!"st=EXISTS it={id} size={t'.size}" ++ wb t' (insertCmps t.dups e t.root 0))
+      | (t', none) => (t', s!"st=NO_MEM it=0 size={t'.size}" ++ wb t' (insertCmps t.dups e t.root 0))
+    | none => (t, "bad-op")
   | ["find", k] =>
     match k.toInt? with
     | some e =>
